@@ -102,9 +102,9 @@ func hOsStat(string) (os.FileInfo, error)   { return nil, errors.New("no such fi
 func hOsUserHomeDir() (string, error)       { return "/v/home", nil }
 func hOsGetenv(string) string               { return "" }
 
-var c15Queries = []string{`if . == 1 then error("x") else "bye\n" | halt_error(3) end`, `if . == 1 then error else halt end`, `"\u0000"`, `"\u0000xy", 1`, `"a", "\u0000", "b"`, `.`, `.[]`, `empty`, `error`, `.[] | if . then . else error end`, `halt`, `halt_error`, `halt_error(3)`, `"a", halt`, `., .`, `.[]?`, `error("x")`, `"x\u0000y"`, `null`, `false, 1`, `1, null`, `"s"`, `[.]`, `{a: .}`, `halt_error(257)`, `(1, error("e"), 2)`, `"ok" | halt_error(0)`, `{"m":1} | halt_error`, `input`, `[inputs]`}
+var c15Queries = []string{`select(. == 1)`, `select(. == null)`, `select(. != 2 and . != 3)`, `if . == 1 then error("x") else "bye\n" | halt_error(3) end`, `if . == 1 then error else halt end`, `"\u0000"`, `"\u0000xy", 1`, `"a", "\u0000", "b"`, `.`, `.[]`, `empty`, `error`, `.[] | if . then . else error end`, `halt`, `halt_error`, `halt_error(3)`, `"a", halt`, `., .`, `.[]?`, `error("x")`, `"x\u0000y"`, `null`, `false, 1`, `1, null`, `"s"`, `[.]`, `{a: .}`, `halt_error(257)`, `(1, error("e"), 2)`, `"ok" | halt_error(0)`, `{"m":1} | halt_error`, `input`, `[inputs]`}
 
-var c15Inputs = []string{``, `1`, `null`, `"s"`, `[1,null]`, `[true,false]`, `{"a":[1]}`, `1 2`, `"a" [] 3`, `1 x`, `[1] } 2`, `"a\u0000b"`, `false`}
+var c15Inputs = []string{`null 2`, `false 1 2`, ``, `1`, `null`, `"s"`, `[1,null]`, `[true,false]`, `{"a":[1]}`, `1 2`, `"a" [] 3`, `1 x`, `[1] } 2`, `"a\u0000b"`, `false`}
 
 // c15Render: the selected format of one value (the encoder itself is checked in C12)
 func c15Render(v any, o c15opts) (string, bool) {
